@@ -37,6 +37,9 @@ def mk(name, i, forked=False):
     return h
 
 
+_MK = mk
+
+
 class Model:
     def __init__(self):
         self.valid = {}       # hash -> bool
@@ -74,10 +77,19 @@ class Model:
         return out
 
 
-def run_history(ctx, backend, ops, tag):
-    """ops: ("adv", name, [parent specs], child spec) | ("rb", name, spec); spec = [i, forked]"""
+def run_history(ctx, backend, ops, tag, reuse=False):
+    """ops: ("adv", name, [parent specs], child spec) | ("rb", name, spec); spec = [i, forked].
+    reuse=True passes the handle objects of earlier operations again (as merge_handles and cached results do: such
+    objects are already marked as recorded) instead of freshly built equal ones."""
     m = Model()
     states = {}
+    pool = {}
+
+    def mk(name, i, forked=False):
+        h = _MK(name, i, forked)
+        if reuse:
+            return pool.setdefault(h.__handle__.hash, h)
+        return h
     rolled_with_desc = False
     interesting = False
     for step, op in enumerate(ops):
@@ -121,8 +133,10 @@ def run_history(ctx, backend, ops, tag):
                 return
     ctx.ev()
     if interesting:
-        ctx.nontrivial(ops)
+        ctx.nontrivial([ops, reuse])
         ctx.count("histories_with_rollback_then_readvance")
+        if reuse:
+            ctx.count("histories_with_reused_handle_objects")
 
 
 def alphabet(small):
@@ -152,6 +166,7 @@ def shard_exh(ctx, length, start, step, small):
             continue
         n += 1
         run_history(ctx, backend, [list(o) for o in seq], "e%d_%d" % (length, i))
+        run_history(ctx, backend, [list(o) for o in seq], "u%d_%d" % (length, i), reuse=True)
         if n % 500 == 0:
             backend = engine.new_backend()
 
@@ -162,7 +177,7 @@ def shard_rand(ctx, n, sub):
     ops = alphabet(False)
     for i in range(n):
         hist_ops = [rnd.choice(ops) for _ in range(rnd.randint(4, 14))]
-        run_history(ctx, backend, hist_ops, "r%d" % i)
+        run_history(ctx, backend, hist_ops, "r%d" % i, reuse=(i % 2 == 1))
         if i < 2:
             ctx.sample({"ops": hist_ops})
         if i % 200 == 199:
@@ -195,6 +210,9 @@ def wexpr(shape):
         return W["sc"](b)
     if shape == "forkmerge":
         return W["sc"](merge_handles([W["sb"](a, 1), W["sb"](a, 2)]))
+    if shape == "mergeend":
+        # the merged state is the final result and is not passed on to another task
+        return merge_handles([W["sb"](a, 1), W["sc"](a, 2)])
     return [W["sc"](b), W["sb"](a, 5)]
 
 
@@ -204,7 +222,7 @@ def shard_workflow(ctx, n, sub):
     for i in range(n):
         for nm in order:
             wdefine(nm, 0)
-        shape = rnd.choice(["chain", "forkmerge", "two"])
+        shape = rnd.choice(["chain", "forkmerge", "two", "mergeend", "mergeend"])
         backend = engine.new_backend()
         log = []
         past = {nm: {0} for nm in order}
@@ -232,11 +250,30 @@ def shard_workflow(ctx, n, sub):
             log.append([step_kind, changed, sorted(invoked), list(key)[:1]])
             ctx.count("workflow_executions")
             wit = {"shape": shape, "log": log, "where": {"seed": ctx.seed, "sub": sub, "i": i}}
+            # "deriving a state again makes it valid again": every handle state the execution returned was derived in it
+            if out[0] == "v":
+                from redun import Handle
+                from redun.utils import iter_nested_value
+                for hv in iter_nested_value(out[1]):
+                    if isinstance(hv, Handle):
+                        ctx.count("returned_handle_states_checked")
+                        if not backend.is_valid_handle(hv):
+                            ctx.violation("returned-handle-state-invalid", "execution %d (%s %s) returned handle state %s which the "
+                                          "backend reports as invalid" % (e, step_kind, changed, hv.__handle__.hash[:8]), wit)
+            if step_kind == "nothing" and invoked:
+                # nothing was edited and every recorded state is current: a re-execution means a valid state was taken
+                # for a rolled-back one
+                ctx.violation("valid-state-treated-as-rolled-back", "unchanged execution %d re-executed %r" % (e, sorted(invoked)), wit)
+                break
+            if step_kind == "nothing":
+                ctx.count("unchanged_reruns_fully_replayed")
             if key != fkey:
                 ctx.violation("workflow-result-differs-from-empty-backend", "execution %d (%s %s): %r vs %r" % (e, step_kind, changed, key, fkey), wit)
                 break
             if changed:
                 need = set(order[order.index(changed):])
+                if shape == "mergeend" and changed != "sa":
+                    need = {changed}      # sb and sc are siblings on different forks of sa's result
                 if not need <= invoked:
                     ctx.violation("result-with-rolled-back-handle-replayed", "after %s of %s the steps %r were not executed again "
                                   "(invoked: %r)" % (step_kind, changed, sorted(need - invoked), sorted(invoked)), wit)
